@@ -8,17 +8,22 @@ LEVEL = "proof"
 READY = True
 MANIFEST = {
     "technique": "Coq proof on Gallina model (parametric hash) + differential correspondence evaluated in Coq with an in-Coq SHA-256",
-    "text": "Theorems (all key lengths, all batch sequences, any hash): the hash of the incrementally maintained trie (insert with "
-            "split, delete with leaf lifting, batches with first-occurrence-wins de-duplication, empty value = delete) equals the "
-            "LIP-0039 root of the resulting map; two histories whose final maps agree give the same root; empty map gives the empty "
-            "hash. Proofs: smt.Verify (faithful model of Verify+CalculateRoot) is SOUND for any number of queries under an injective, "
-            "domain-separated hash, end to end against the map: for every (requested key, query) pair a non-empty value is in the map, an "
-            "empty value or a different query key means the requested key is absent; completeness is proved for the canonical proof of one key (rest partial, docs/C10.md). The executable transcription of Verify/CalculateRoot and of Prove's merge is tied to the Go code by "
-            "running both on every case: roots after every batch (random / clustered / subtree-crossing keys, key lengths 1,2,4,32 bytes, "
-            "re-opened tries), Go proofs must equal model proofs and verify in both, and every tampered proof gets the same verdict "
-            "in both and, if accepted, must still state only true claims.",
-    "note": "Trusted: Coq kernel + vm_compute, in-Coq SHA-256 (checked on FIPS vectors), fidelity of the hand model as sampled by the "
-            "correspondence (the 8-bit sub-tree storage layout is tied behaviourally only), Go harness and Python glue.",
+    "text": "ROOT clauses: the theorems are about a REFERENCE trie (textbook insert-with-split / delete-with-leaf-lifting over bit keys, "
+            "batches with first-occurrence-wins de-duplication, empty value = delete; SMT/Tree.v), NOT about a transcription of the Go "
+            "update path (updateSubtree/updateNode/calculateSubTree, bins, stub nodes, getSubtree, db.Set/db.Del): for every key length "
+            "and batch sequence the hash of the reference trie equals the LIP-0039 root of the resulting map, histories with the same "
+            "final map give the same root, the empty map gives the empty hash. For the GO CODE the clauses 'independent of order / "
+            "batching / overwrites / deletions / sub-tree layout' and 'a re-opened trie continues identically' are TESTED, not proved: "
+            "differential runs of the real trie against that proved reference and against smt_root after every batch, on two stores (a "
+            "map store, and batchdb over pebble with production semantics: reads never see the running batch, batch written between "
+            "Updates, trie re-created from the root) and two layouts (sub-tree height 8 and 4). PROOF clauses: smt.Verify is modelled "
+            "faithfully (Verify+CalculateRoot byte level) and proved SOUND for any number of queries under an injective, domain-separated "
+            "hash, end to end against the map (a non-empty value is in the map, an empty value or a different query key means the "
+            "requested key is absent); completeness is proved only for the canonical proof of one key (multi-key completeness of the Prove "
+            "model is partial). Verify/CalculateRoot/Prove models are tied to the Go code on every case: Go proofs must equal model proofs "
+            "and verify in both, every tampered proof gets the same verdict in both and, if accepted, must state only true claims.",
+    "note": "Trusted: Coq kernel + vm_compute, in-Coq SHA-256 (checked on FIPS vectors), Go harness and Python glue. NOT covered by any "
+            "proof: the Go update path and its node store (sub-tree layout, stubs, Set/Del order, re-opening) - differential testing only.",
 }
 IMPORTS = "From LE Require Import SMT.Spec SMT.Tree SMT.Verify SMT.Prove Corr.C10."
 
@@ -74,6 +79,24 @@ def evaluate(ck, recs):
                      theorem_or_correspondence="harness c10 vs pkg/trie/smt")
             f["spec_violated"] = True
             ck.failures.append(f)
+    # production store (batchdb over pebble, reads never see the running batch): must give the same roots / proofs
+    for r in recs:
+        if r.get("panic") or r.get("err"):
+            continue
+        bad = None
+        if r["k"] == "root" and r.get("prodroots") is not None and (r.get("proderr") or r.get("prodroots") != r["roots"]):
+            bad = "roots on the production store differ: %s vs %s %s" % (r.get("prodroots"), r["roots"], r.get("proderr", ""))
+        if r["k"] == "proof" and r.get("prodsibs") is not None and (r.get("proderr") or r["prodsibs"] != r["sibs"] or r["prodqs"] != r["qs"]):
+            bad = "proof generated on the production store differs or fails: %s" % r.get("proderr", "other sibling hashes / queries")
+        if bad:
+            ck.count()
+            f = dict(kind="input", key="c10:%s:production-store" % r["k"], case=r,
+                     what="smt %s (%s, key length %d): with batchdb over pebble (Get never sees the batch of the running Update, batch "
+                          "written between Updates, trie re-created from the root) %s; input %s" % (
+                              r["k"], r["gen"], r["kl"], bad[:400], json.dumps({k: v for k, v in r.items() if k in ("kl", "gen", "batches", "reopen", "keys", "sh")})[:500]),
+                     theorem_or_correspondence="harness c10 (production store semantics) vs pkg/trie/smt + pkg/db/batchdb")
+            f["spec_violated"] = True
+            ck.failures.append(f)
     roots = [r for r in roots if not (r.get("panic") or r.get("err"))]
     proofs = [r for r in proofs if not (r.get("panic") or r.get("err"))]
     roots = balance(roots, lambda r: r["kl"] * (1 + sum(len(b) for b in r["batches"])), 6)
@@ -86,7 +109,7 @@ def evaluate(ck, recs):
         for r, code in zip(rs, res):
             if r["k"] == "root":
                 ck.count(len(r["roots"]))
-                ck.nontrivial(("root", r["kl"], r["gen"], json.dumps(r["batches"])))
+                ck.nontrivial(("root", r["kl"], r["gen"], r.get("sh", 0), json.dumps(r["batches"])))
             else:
                 ck.count(len(r["obs"]))
                 for o in r["obs"]:
@@ -96,10 +119,11 @@ def evaluate(ck, recs):
                 detail = ""
                 if r["k"] == "proof":
                     detail = " accepted-tamperings=%s" % [o["what"] for o in r["obs"] if o["v"] == 1 and not o["must"]]
-                what = "smt %s (%s, key length %d): implementation %s (code %d)%s on %s" % (
-                    r["k"], r["gen"], r["kl"], "violates the C10 oracle" if spec_bad else "differs from the proved model", code, detail,
+                what = "smt %s (%s, key length %d%s): implementation %s (code %d)%s on %s" % (
+                    r["k"], r["gen"], r["kl"], ", sub-tree height %d" % r["sh"] if r.get("sh") else "", "violates the C10 oracle" if spec_bad else "differs from the proved model", code, detail,
                     json.dumps({k: v for k, v in r.items() if k != "obs"})[:600])
-                f = dict(kind="input", key="c10:%s:%s:%s" % (r["k"], r["gen"] if r["k"] == "root" else "verify", "spec" if spec_bad else "model"),
+                f = dict(kind="input", key="c10:%s:%s%s:%s" % (r["k"], r["gen"] if r["k"] == "root" else "verify",
+                                                               ":subtree-height-%d" % r["sh"] if r.get("sh") else "", "spec" if spec_bad else "model"),
                          what=what, case=r, theorem_or_correspondence="Corr.C10.%s vs pkg/trie/smt" % fn)
                 f["spec_violated"] = spec_bad
                 ck.failures.append(f)
@@ -181,7 +205,7 @@ def replay(ck, path):
         return ck.finish(LEVEL)
     binp = ck.go_build("c10")
     inp = ck.work + "/replay_in.jsonl"
-    open(inp, "w").write(json.dumps({k: v for k, v in case.items() if k not in ("obs", "roots", "sibs", "qs")}) + "\n")
+    open(inp, "w").write(json.dumps({k: v for k, v in case.items() if k not in ("obs", "roots", "sibs", "qs", "prodroots", "prodsibs", "prodqs", "proderr")}) + "\n")
     recs = run_capture(ck, binp, ["-in", inp], out_name="replay.jsonl")
     if recs is not None:
         ck.prove(extra_targets=["Corr/C10.vo"])
